@@ -209,22 +209,54 @@ func (nd *node) vcProposer() {
 // vcSync: every VC signs the head its own beacon node reported (no consensus by design).
 func (nd *node) vcSync(rng *rand.Rand) {
 	w := nd.w
-	var msgs []*altair.SyncCommitteeMessage
-	for _, v := range w.vals {
-		m := &altair.SyncCommitteeMessage{Slot: eth2p0.Slot(w.slot), BeaconBlockRoot: w.syncRoots[w.p.SyncChoice[nd.idx]], ValidatorIndex: v.Idx}
-		if err := w.ch.sign(m, nd.share(v), "", nil); err != nil {
-			w.r.Inconclusive("vc sign sync message: %v", err)
+	submit := func(choice int, what string) {
+		var msgs []*altair.SyncCommitteeMessage
+		for _, v := range w.vals {
+			m := &altair.SyncCommitteeMessage{Slot: eth2p0.Slot(w.slot), BeaconBlockRoot: w.syncRoots[choice], ValidatorIndex: v.Idx}
+			if err := w.ch.sign(m, nd.share(v), "", nil); err != nil {
+				w.r.Inconclusive("vc sign sync message: %v", err)
+				return
+			}
+			msgs = append(msgs, m)
+		}
+		if rng.Intn(4) != 0 { // VCs normally submit all their validators' messages in one call
+			w.mon.vapiResult(nd.idx, what, nd.vapi.SubmitSyncCommitteeMessages(w.ctx, msgs))
 			return
 		}
-		msgs = append(msgs, m)
+		for _, m := range msgs {
+			w.mon.vapiResult(nd.idx, what, nd.vapi.SubmitSyncCommitteeMessages(w.ctx, []*altair.SyncCommitteeMessage{m}))
+		}
 	}
-	if rng.Intn(4) != 0 { // VCs normally submit all their validators' messages in one call
-		w.mon.vapiResult(nd.idx, "submit-sync-messages", nd.vapi.SubmitSyncCommitteeMessages(w.ctx, msgs))
-		return
+	submit(w.p.SyncChoice[nd.idx], "submit-sync-messages")
+	// VC restart / fail-over inside the slot: the VC signs the same duty again for the head its
+	// beacon node reports now. The node has to refuse that and must not exchange it.
+	if d := w.p.ResignMs[nd.idx]; d >= 0 && w.p.SyncChoice2[nd.idx] != w.p.SyncChoice[nd.idx] {
+		if !w.sleepUntil(time.Now().Add(msDur(d))) {
+			return
+		}
+		w.r.Count("resign/sync_second_submissions", 1)
+		submit(w.p.SyncChoice2[nd.idx], "resign-sync-messages")
 	}
-	for _, m := range msgs {
-		w.mon.vapiResult(nd.idx, "submit-sync-messages", nd.vapi.SubmitSyncCommitteeMessages(w.ctx, []*altair.SyncCommitteeMessage{m}))
+}
+
+// vcResignAttestations: after a restart the VC signs attestations for the same duty again, for
+// other data than the node served (a VC without slashing protection for the slot).
+func (nd *node) vcResignAttestations(rng *rand.Rand) {
+	w := nd.w
+	var atts []*eth2spec.VersionedAttestation
+	var head [32]byte
+	rng.Read(head[:])
+	for _, v := range w.vals {
+		d := w.candidateAttData(nd.idx, v)
+		d.BeaconBlockRoot = head
+		att := w.buildAttestation(v, d)
+		if err := w.ch.sign(att, nd.share(v), "", nil); err != nil {
+			return
+		}
+		atts = append(atts, att)
 	}
+	w.r.Count("resign/attestation_second_submissions", 1)
+	w.mon.vapiResult(nd.idx, "resign-attestations", nd.vapi.SubmitAttestations(w.ctx, &eth2api.SubmitAttestationsOpts{Attestations: atts}))
 }
 
 func (w *world) exitEpoch(i int) uint64 { return w.epoch + uint64(w.p.ExitEpochOff[i]) }
@@ -278,6 +310,9 @@ func (nd *node) nodeMain() {
 		w.go_(func() {
 			if w.sleepUntil(vc.Add(msDur(300 + r2.Intn(500)))) {
 				nd.vcAttester(r2)
+				if d := w.p.ResignMs[nd.idx]; d >= 0 && w.sleepUntil(time.Now().Add(msDur(d))) {
+					nd.vcResignAttestations(r2)
+				}
 			}
 		})
 	}
